@@ -39,6 +39,7 @@ type crashScenario struct {
 	Kill       bool     `json:"kill,omitempty"`  // the faults are connection losses (the target stays up, the tool keeps running) instead of crashes
 	Bulk       bool     `json:"bulk,omitempty"`  // all items of one symbol arrive in one read
 	BigTxn     int      `json:"big_txn,omitempty"` // commands in the transaction of symbol tL (0 = 1100)
+	Rekey      bool     `json:"rekey,omitempty"`   // from the first restart on the source reports a new replication id (fail-over, same history): the stored position is re-keyed
 }
 
 type runRec struct {
@@ -145,6 +146,10 @@ func (x *crashCtl) event(tag string, do func()) bool {
 
 func cpOffsetField() string { return aofRunID + "_offset" }
 
+// rekeyID is the replication id the source reports after a fail-over (scenario field Rekey): the
+// history continues, the previous id becomes the second id.
+const rekeyID = "bbbbbbbbbbbbbbbbbbbbbbbbbbbbbbbbbbbbbbbb"
+
 // collectCp extracts executed writes of <runid>_offset from the exec log.
 func collectCp(exec []*redisd.Req, runs []runRec) []cpWrite {
 	var out []cpWrite
@@ -153,7 +158,7 @@ func collectCp(exec []*redisd.Req, runs []runRec) []cpWrite {
 			continue
 		}
 		for i := 2; i+1 < len(r.Argv); i += 2 {
-			if string(r.Argv[i]) == cpOffsetField() {
+			if string(r.Argv[i]) == cpOffsetField() || string(r.Argv[i]) == rekeyID+"_offset" {
 				v, err := strconv.ParseInt(string(r.Argv[i+1]), 10, 64)
 				if err != nil {
 					v = -999
@@ -217,19 +222,40 @@ func crashExec(t *testing.T, scn crashScenario, ch *mc.Chooser) (rec crashRec, m
 				bootEvent = func(tag string, do func()) bool { do(); return false }
 			}
 			crashed := bootEvent(fmt.Sprintf("crash.boot%d", runNo), func() {
+				ids := []string{aofRunID, "0000000000000000000000000000000000000000"}
+				if scn.Rekey && runNo >= 1 {
+					ids = []string{rekeyID, aofRunID}
+				}
+				env.runID = ids[0]
 				cli, err := client.NewRedis(cfg.Redis)
 				if err != nil {
 					bootErr = err
 					return
 				}
-				err = checkpoint.UpdateCheckpoint(cli, cpKeyName, []string{aofRunID, "0000000000000000000000000000000000000000"})
+				// (*syncer).updateCheckpoint: a checkpoint still stored under the source's second id keeps
+				// that id until the source has answered PSYNC
+				cpIds := ids
+				if scn.Rekey {
+					_, cpRunId, herr := checkpoint.GetCheckpointHash(cli, ids)
+					if herr != nil {
+						cli.Close()
+						bootErr = herr
+						return
+					}
+					if cpRunId != "" && cpRunId == ids[1] {
+						cpIds = []string{ids[1], ids[0]}
+					}
+				}
+				err = checkpoint.UpdateCheckpoint(cli, cpKeyName, cpIds)
 				cli.Close()
 				if err != nil {
 					bootErr = err
 					return
 				}
-				ro = NewRedisOutput(cfg)
-				sp, err = ro.StartPoint(context.Background(), []string{aofRunID, "0000000000000000000000000000000000000000"})
+				cfgRun := cfg
+				cfgRun.RunId = cpIds[0]
+				ro = NewRedisOutput(cfgRun)
+				sp, err = ro.StartPoint(context.Background(), ids)
 				if err != nil {
 					bootErr = err
 					return
@@ -239,13 +265,14 @@ func crashExec(t *testing.T, scn crashScenario, ch *mc.Chooser) (rec crashRec, m
 					// no usable position: the tool takes a full sync; the (empty) snapshot
 					// ends at S0 and its completion stores S0 (sendRdb -> setCheckpoint)
 					rr.FullSync = true
-					if err = ro.setCheckpoint(context.Background(), aofRunID, aofS0, config.Version); err != nil {
+					if err = ro.setCheckpoint(context.Background(), ids[0], aofS0, config.Version); err != nil {
 						bootErr = err
 						return
 					}
 					sp.Offset = aofS0
 				}
-				bootErr = ro.SetRunId(context.Background(), aofRunID)
+				// the source answered PSYNC (+CONTINUE <current id>): input.syncMeta -> output.SetRunId
+				bootErr = ro.SetRunId(context.Background(), ids[0])
 			})
 			if crashed || bootErr != nil {
 				rr.Crashed = crashed
